@@ -487,4 +487,88 @@ def Handler.run (h : Handler) : List Round → Handler × List Result
   | [] => (h, [])
   | r :: rs => ((Handler.run (h.authorize r).1 rs).1, (h.authorize r).2 :: (Handler.run (h.authorize r).1 rs).2)
 
+/-! ### Attempts in flight: several `Authorize` calls on one handler at the same time
+
+The transport calls `Authorize` from every `Write` that is answered 401/403, and several transports may
+share one handler: two or more calls can be in flight at once, each parked in the
+`AuthorizationCodeFetcher` with ITS OWN freshly generated `state` (`getAuthorizationCode`: `state :=
+rand.Text()`, a local variable; trusted: values of `crypto/rand.Text` generated for different attempts
+differ).  What comes back from the fetcher carries a state VALUE: the one generated for some attempt of
+this handler — this one, one still in flight, one long finished — or a value no attempt generated
+(forged, empty).  The code compares it with the local variable and nothing else: the handler keeps no
+table of outstanding states (structural fact `oauth.handler.fields`), so an attempt accepts exactly
+the state generated for it.
+
+An attempt is ATOMIC in two pieces: `start` (everything up to the call of the fetcher: it reads only
+the fixed configuration and the network, writes nothing on the handler) and `finish` (from the
+fetcher's return: state comparison, RFC 9207 check, exchange, `h.tokenSource = ts` under `mu`).  The
+model therefore computes the whole result of an attempt at its `finish` step from the attempt alone;
+the only effect on the handler is the token source served. -/
+
+/-- The `state` of an authorization response: generated for attempt `k` of this handler (attempts are
+numbered in the order they start), or a value no attempt of this handler generated. -/
+inductive StateVal
+  | gen (attempt : Nat)
+  | foreign
+deriving DecidableEq, Repr
+
+/-- The fetcher's answer with the state VALUE it carries. -/
+inductive FetchV
+  | err
+  | result (state : StateVal) (iss : Url)
+deriving Repr
+
+/-- What the answer is for attempt `own`: `authRes.State != state` compares with the state generated
+for THIS attempt. -/
+def FetchV.answer (own : Nat) : FetchV → FetchAnswer
+  | .err => .err
+  | .result s iss => .result (s == .gen own) iss
+
+/-- One call of `Authorize` that may overlap others: request URL, 401/403 response, the network it
+sees (the `fetch` field of `world` is not read), and what the fetcher is answered. -/
+structure Attempt where
+  serverUrl : Url
+  inp : Input
+  world : World
+  fetchV : Url → FetchV
+
+/-- The attempt as a round of the sequential model, once its number is known. -/
+def Attempt.round (a : Attempt) (own : Nat) : Round :=
+  { serverUrl := a.serverUrl, inp := a.inp,
+    world := { prm := a.world.prm, asm := a.world.asm, reg := a.world.reg, tok := a.world.tok,
+               fetch := fun u => (a.fetchV u).answer own } }
+
+/-- A handler with attempts in flight. -/
+structure CHandler where
+  cfg : HConfig
+  started : Nat := 0
+  served : Served := .initial
+  flight : List (Nat × Attempt) := []
+
+inductive Step
+  | start (a : Attempt)      -- `Authorize` is called; the attempt gets the next number
+  | finish (k : Nat)         -- the fetcher of attempt `k` returns (or the attempt ended before it)
+
+/-- The result of attempt `k` of a handler with configuration `c`. -/
+def attemptResult (c : HConfig) (k : Nat) (a : Attempt) : Result :=
+  authorize (c.at (a.round k).serverUrl) (a.round k).inp (a.round k).world
+
+/-- One step; `finish k` reports the number and the result of the attempt (nothing if no such attempt is in flight). -/
+def CHandler.step (c : CHandler) : Step → CHandler × Option (Nat × Result)
+  | .start a => ({ c with started := c.started + 1, flight := c.flight ++ [(c.started, a)] }, none)
+  | .finish k =>
+    match c.flight.lookup k with
+    | none => (c, none)
+    | some a =>
+      let res := attemptResult c.cfg k a
+      ({ c with served := if res.installed then .round k else c.served, flight := c.flight.filter fun p => p.1 != k },
+       some (k, res))
+
+/-- Any schedule of starts and finishes: the final handler and the reported results, in order. -/
+def CHandler.run (c : CHandler) : List Step → CHandler × List (Nat × Result)
+  | [] => (c, [])
+  | s :: ss =>
+    let r := CHandler.run (c.step s).1 ss
+    (r.1, match (c.step s).2 with | some x => x :: r.2 | none => r.2)
+
 end OAuth
